@@ -192,8 +192,12 @@ package rapid
 //@   ensures [no-invoke-traffic] delta(EvInvokeStart) == 0 && delta(EvInvokeRuntimeDone) == 0 && delta(ReleaseRuntime) == 0 && delta(ReleaseExt) == 0 && delta(ReleaseInt) == 0 && delta(InitBarriers) == 0
 
 // the invoke subsegment: renderer first, then exactly the subscribers and the runtime are released, then the response is awaited
+// C12: the invocation is the answer to the runtime's next poll, never to its restore poll (a runtime parked on
+// restore/next is released by a restore request only)
+//@ event ReleaseRuntimeParkedOnRestorePoll = call core.(*Runtime).Release when a0.currentState == a0.RuntimeRestoreReadyState
 //@ func doInvoke$1$2
 //@   requires execCtx != nil && invokeRequest != nil && mx != nil && isInvokeFlow(invokeFlow)
+//@   ensures [the-invocation-does-not-answer-the-restore-poll] delta(ReleaseRuntimeParkedOnRestorePoll) == 0
 //@   ensures [renderer-before-release] delta(RendererSet) == 1 && delta(ReleaseRuntime) == 1 && first(RendererSet) < first(ReleaseRuntime)
 //@   ensures [exactly-the-subscribers] delta(ReleaseExt) == ite(extEnabled(), len(extAgents), 0) && delta(ReleaseInt) == ite(extEnabled(), len(intAgents), 0)
 //@   ensures [agents-before-runtime] (delta(ReleaseExt) >= 1 ==> first(RendererSet) < first(ReleaseExt) && last(ReleaseExt) < first(ReleaseRuntime)) && (delta(ReleaseInt) >= 1 ==> first(RendererSet) < first(ReleaseInt) && last(ReleaseInt) < first(ReleaseRuntime))
